@@ -65,9 +65,15 @@ impl RngCore for ReplayRng {
         if self.i < self.chunks.len() && self.chunks[self.i].len() == d.len() {
             d.copy_from_slice(&self.chunks[self.i]);
         } else {
+            // out of step / exhausted: hand out varying (never constant) filler so that rejection
+            // sampling in the caller always terminates; the caller must look at `bad`
             self.bad = true;
+            let mut s = (self.i as u64).wrapping_mul(0x9E3779B97F4A7C15) ^ 0xD1B54A32D192ED03;
             for x in d.iter_mut() {
-                *x = 0x5a;
+                s ^= s << 13;
+                s ^= s >> 7;
+                s ^= s << 17;
+                *x = (s >> 24) as u8 & 0x3f;
             }
         }
         self.i += 1;
